@@ -18,7 +18,10 @@ PACK = 12
 RULE = ("exhaustive matrix of cells = kind (string, date, date-time, uuid, integer, number, boolean, str-enum, int-enum, const, "
         "array of scalar, array of model, model ref, union of scalars, union with model, any) x required x nullable notation "
         "(none / 3.0 nullable / 3.1 type list / null union member / null enum member, where applicable) x default (none / valid) "
-        "x position (model property, query, header, cookie parameter) x enum style, packed 12 cells per document; plus "
+        "x position (model property, query, header, cookie parameter) x enum style x embedding (model cells: declared directly / in "
+        "a model the generator processes twice / inherited from an allOf parent / declared untyped+required by a parent and refined "
+        "by the child; parameter cells: on the operation / once at path-item level for two operations / once under "
+        "components.parameters referenced by two operations - both operations are checked), packed 12 cells per document; plus "
         "Hypothesis-drawn random packs of cells (mixing neighbours). Every cell is non-trivial; distinct = the cell tuple; an "
         "evaluation = one cell checked (signature, absent, null, type, present clauses).")
 ASSUMPTIONS = [
@@ -85,8 +88,11 @@ def all_cells():
     for loc, kinds in PARAM_OK.items():
         for kind in sorted(kinds):
             for req in (True, False):
-                for nn in ("none", "nullable", "typelist"):
-                    if nn != "none" and kind not in TYPED:
+                for nn in ("none", "nullable", "typelist", "enumnull"):
+                    if nn == "enumnull":
+                        if not kind.startswith("enum") or loc != "query":
+                            continue
+                    elif nn != "none" and kind not in TYPED:
                         continue
                     for dflt in ((False, True) if kind in DEFAULTABLE else (False,)):
                         cells.append({"pos": loc, "kind": kind, "required": req, "nullable": nn, "default": dflt, "literal": False})
@@ -97,6 +103,10 @@ def is_v31(cell):
     return cell["nullable"] == "typelist"
 
 
+MODEL_EMBED = ("plain", "reparsed", "inherited", "refined")
+PARAM_EMBED = ("op", "pathlevel", "component")
+
+
 def pack(cells):
     groups: dict[tuple, list] = {}
     for c in cells:
@@ -104,7 +114,8 @@ def pack(cells):
     out = []
     for key, lst in groups.items():
         for i in range(0, len(lst), PACK):
-            out.append({"cells": lst[i:i + PACK]})
+            for embed in (MODEL_EMBED if key[0] else PARAM_EMBED):
+                out.append({"cells": lst[i:i + PACK], "embed": embed})
     return out
 
 
@@ -125,7 +136,8 @@ def random_pack(draw):
     chosen = [dict(pool[i], literal=lit if pool[i]["kind"].startswith("enum") else False) for i in idx]
     if not model:
         chosen = [dict(c, literal=False) for c in chosen]
-    return {"cells": chosen, "v31": v31}
+    embed = draw(st.sampled_from(MODEL_EMBED if model else PARAM_EMBED))
+    return {"cells": chosen, "v31": v31, "embed": embed}
 
 
 def strategy(tier):
@@ -169,10 +181,32 @@ def run(case, ctx):
     param_cells = [c for c in cells if c["pos"] != "model"]
     comps = {"Leaf": {"type": "object", "properties": {"a": {"type": "string"}}}}
     paths = {}
+    embed = case.get("embed") or ("plain" if model_cells else "op")
+    ctx.label("embed:" + embed)
+    extra_components = {}
+    ops = [{"method": "get", "path": "/items"}]
     if model_cells:
         props = {f"p{i}": cell_schema(c, v31) for i, c in enumerate(model_cells)}
         req = [f"p{i}" for i, c in enumerate(model_cells) if c["required"]]
-        comps["Holder"] = {"type": "object", "properties": props, **({"required": req} if req else {})}
+        holder = {"type": "object", "properties": props, **({"required": req} if req else {})}
+        if embed == "inherited":
+            # the cells are declared by a parent; the class under test only composes it
+            comps["HolderBase"] = holder
+            comps["Holder"] = {"allOf": [{"$ref": "#/components/schemas/HolderBase"},
+                                         {"type": "object", "properties": {"zzown": {"type": "string"}}}]}
+        elif embed == "refined":
+            # a parent declares every property untyped (and says which are required); the child's inline member re-declares
+            # each with the cell's schema without repeating 'required': the conjunction keeps both facts
+            comps["HolderBase"] = {"type": "object", "properties": {k: {} for k in props}, **({"required": req} if req else {})}
+            comps["Holder"] = {"allOf": [{"$ref": "#/components/schemas/HolderBase"}, {"type": "object", "properties": props}]}
+        elif embed == "reparsed":
+            # an inline composition of a component declared *later* makes the generator process Holder a second time
+            holder["properties"]["zzlate"] = {"allOf": [{"$ref": "#/components/schemas/ZzLate"}],
+                                              "type": "object", "properties": {"zzx": {"type": "string"}}}
+            comps["Holder"] = holder
+            comps["ZzLate"] = {"type": "object", "properties": {"zzy": {"type": "string"}}}
+        else:
+            comps["Holder"] = holder
     if param_cells:
         ps = []
         for i, c in enumerate(param_cells):
@@ -181,8 +215,22 @@ def run(case, ctx):
             if c["required"]:
                 d["required"] = True
             ps.append(d)
-        paths = {"/items": {"get": {"operationId": "fetchThing", "parameters": ps, "responses": {"200": {"description": "ok"}}}}}
-    doc = {"openapi": "3.1.0" if v31 else "3.0.3", "info": {"title": "t", "version": "1"}, "paths": paths, "components": {"schemas": comps}}
+        ok = {"200": {"description": "ok"}}
+        if embed == "pathlevel":
+            # one declaration shared by two operations
+            paths = {"/items": {"parameters": ps, "get": {"operationId": "fetchThing", "responses": ok},
+                                "post": {"operationId": "storeThing", "responses": ok}}}
+            ops.append({"method": "post", "path": "/items"})
+        elif embed == "component":
+            extra_components["parameters"] = {f"Par{i}": p for i, p in enumerate(ps)}
+            refs = [{"$ref": f"#/components/parameters/Par{i}"} for i in range(len(ps))]
+            paths = {"/items": {"get": {"operationId": "fetchThing", "parameters": refs, "responses": ok},
+                                "post": {"operationId": "storeThing", "parameters": copy.deepcopy(refs), "responses": ok}}}
+            ops.append({"method": "post", "path": "/items"})
+        else:
+            paths = {"/items": {"get": {"operationId": "fetchThing", "parameters": ps, "responses": ok}}}
+    doc = {"openapi": "3.1.0" if v31 else "3.0.3", "info": {"title": "t", "version": "1"}, "paths": paths,
+           "components": {"schemas": comps, **extra_components}}
     res = sut.generate(doc, cfg={"literal_enums": literal})
     try:
         if res.exc is not None or not res.accepted:
@@ -200,20 +248,26 @@ def run(case, ctx):
             return
         with pkg:
             if model_cells:
-                _check_model(ctx, pkg, model_cells, res)
+                _check_model(ctx, pkg, model_cells, res, embed)
             if param_cells:
-                _check_params(ctx, pkg, res, param_cells)
+                for n_op, op in enumerate(ops):
+                    _check_params(ctx, pkg, res, param_cells, op, embed, n_op)
         ctx.sample = {"cells": cells[:3], "first_schema": cell_schema(cells[0], v31)}
     finally:
         env.rm(res.out)
 
 
-def _site(c):
-    return {"pos": c["pos"], "kind": c["kind"], "required": c["required"], "nullable": c["nullable"], "default": c["default"],
-            "literal": bool(c.get("literal"))}
+def _site(c, embed=None, n_op=0):
+    d = {"pos": c["pos"], "kind": c["kind"], "required": c["required"], "nullable": c["nullable"], "default": c["default"],
+         "literal": bool(c.get("literal"))}
+    if embed not in (None, "plain", "op"):
+        d["embed"] = embed
+        if n_op:
+            d["second_operation"] = True
+    return d
 
 
-def _check_model(ctx, pkg, cells, res):
+def _check_model(ctx, pkg, cells, res, embed="plain"):
     H = getattr(pkg.models, "Holder", None)
     if H is None:
         ctx.label("holder_missing")
@@ -231,7 +285,7 @@ def _check_model(ctx, pkg, cells, res):
     base = {f"p{i}": SAMPLE[c["kind"]] for i, c in enumerate(cells) if c["required"]}
     for i, c in enumerate(cells):
         name = f"p{i}"
-        site = _site(c)
+        site = _site(c, embed)
         ctx.evals()
         ctx.nontrivial([c])
         nullable = c["nullable"] != "none" or c["kind"] == "any"
@@ -340,8 +394,7 @@ def _check_model(ctx, pkg, cells, res):
                 ctx.label("constructor_probe_failed:" + type(e).__name__)
 
 
-def _check_params(ctx, pkg, res, cells):
-    op = {"method": "get", "path": "/items"}
+def _check_params(ctx, pkg, res, cells, op, embed, n_op):
     er = locate.find_endpoint(res, op)
     if er is None:
         ctx.label("endpoint_missing")
@@ -364,7 +417,7 @@ def _check_params(ctx, pkg, res, cells):
     for i, c in enumerate(cells):
         name = f"X-Q{i}" if c["pos"] == "header" else f"q{i}"
         py = er.pynames.get((c["pos"], name))
-        site = _site(c)
+        site = _site(c, embed, n_op)
         ctx.evals()
         ctx.nontrivial([c])
         nullable = c["nullable"] != "none"
@@ -419,7 +472,7 @@ def _check_params(ctx, pkg, res, cells):
     for (loc, name), c in wire.items():
         sent = (name in q) if loc == "query" else ((name.lower() in hm) if loc == "header" else (name in ck))
         expect = c["required"] or c["default"]
-        site = _site(c)
+        site = _site(c, embed, n_op)
         if sent and not expect:
             ctx.violation("absent.not_transmitted", site, name)
         if expect and not sent:
@@ -464,7 +517,7 @@ def _check_params(ctx, pkg, res, cells):
             continue
         sent = (name in q) if loc == "query" else ((name.lower() in hm) if loc == "header" else (name in ck))
         if not sent:
-            ctx.violation("present.falsy_transmitted", _site(c), f"{name}={kwargs2[py]!r} was not sent")
+            ctx.violation("present.falsy_transmitted", _site(c, embed, n_op), f"{name}={kwargs2[py]!r} was not sent")
 
 
 def _ir(kind):
